@@ -61,6 +61,10 @@ Fixpoint leaves (m : mtree) : list trace :=
   | Node l r => leaves l ++ leaves r
   end.
 
+(* ---------- execution counts of a predicate in a trace / summed over a suite ---------- *)
+Definition count_of (t : trace) (k : Z) : Z := match dget (exec_pred t) k with Some c => c | None => 0 end.
+Definition total_count (ts : list trace) (k : Z) : Z := fold_right (fun t acc => count_of t k + acc) 0 ts.
+
 (* ---------- the instruction part of ExecutionTrace.merge ---------- *)
 (* executed_instructions (each instruction abstracted to a tag) and executed_assertions as
    (trace_position, assertion id).  merge appends the instructions and appends COPIES of the merged-in
